@@ -43,6 +43,7 @@ type Source struct {
 	WithData bool  // deliver the error together with the final chunk
 	Sched    int
 	ZeroMax  int  // max consecutive (0,nil) reads injected (progress-guaranteeing), 0 = none
+	ZeroRun  int  // when > 0: exactly this many (0,nil) reads follow every data chunk
 	Endless0 bool // return (0,nil) forever once position reaches ErrAt (no-progress scenario)
 	Yield    bool
 	// Churn, when set, is called inside every Read before data is delivered: a hostile reader that
@@ -57,6 +58,7 @@ type Source struct {
 	ErrDelivered bool
 	ZeroReads    int
 	zeroRun      int
+	zeroOwed     int
 	MaxAsk       int
 	Trace        func(format string, a ...interface{})
 }
@@ -97,6 +99,11 @@ func (s *Source) Read(p []byte) (int, error) {
 		return 0, s.Err
 	}
 	if len(p) == 0 {
+		return 0, nil
+	}
+	if s.zeroOwed > 0 {
+		s.zeroOwed--
+		s.ZeroReads++
 		return 0, nil
 	}
 	// zero-read injection
@@ -147,6 +154,7 @@ func (s *Source) Read(p []byte) (int, error) {
 		FillContent(p[:n], s.Pos)
 	}
 	s.Pos += n
+	s.zeroOwed = s.ZeroRun
 	if s.Pos >= limit && s.WithData && !s.Endless0 {
 		s.ErrDelivered = true
 		if s.Trace != nil {
